@@ -13,6 +13,7 @@ pub enum Fam {
     L0, // cell centred lattice
     L1, // lattice including the box boundary
     Lp, // lattice + perturbation
+    Lb, // lattice with a basis (bcc, fcc, centred rectangular), exact or perturbed
     B,  // points on walls / corners
     S,  // co-spherical
     P,  // collinear / coplanar / layered
@@ -29,6 +30,7 @@ impl Fam {
             Fam::L0 => "L0",
             Fam::L1 => "L1",
             Fam::Lp => "Lp",
+            Fam::Lb => "Lb",
             Fam::B => "B",
             Fam::S => "S",
             Fam::P => "P",
@@ -45,6 +47,7 @@ pub const ALL_FAMS: &[(u32, Fam)] = &[
     (1, Fam::L0),
     (1, Fam::L1),
     (2, Fam::Lp),
+    (1, Fam::Lb),
     (2, Fam::B),
     (1, Fam::S),
     (1, Fam::P),
@@ -60,6 +63,7 @@ pub const DEGENERATE_FAMS: &[(u32, Fam)] = &[
     (2, Fam::L0),
     (2, Fam::L1),
     (3, Fam::Lp),
+    (3, Fam::Lb),
     (3, Fam::B),
     (2, Fam::S),
     (2, Fam::P),
@@ -230,6 +234,53 @@ fn unit_points(fam: Fam, raw: &[[f64; 4]], p: &[u32; 6], d: usize) -> Vec<[f64; 
                 for a in 0..d {
                     let base = if boundary { s[a] as f64 / (k - 1) as f64 } else { (s[a] as f64 + 0.5) / k as f64 };
                     t[a] = clamp01(base + (raw[i][a] - 0.5) * mag / k as f64);
+                }
+                for a in d..3 {
+                    t[a] = raw[i][a];
+                }
+                out.push(t);
+            }
+        }
+        Fam::Lb => {
+            // lattice with a basis: body centred (2 sites per cell), face centred (3D: 4 sites,
+            // 2D: the centred rectangular lattice again) - many exactly co-spherical sets whose
+            // Delaunay cells are not boxes (octahedra, tetrahedra), unlike the simple lattices
+            let fcc = d == 3 && p[0] % 2 == 0;
+            let basis: &[[f64; 3]] = if d == 1 {
+                &[[0., 0., 0.], [0.25, 0., 0.]]
+            } else if fcc {
+                &[[0., 0., 0.], [0.5, 0.5, 0.], [0.5, 0., 0.5], [0., 0.5, 0.5]]
+            } else if d == 2 {
+                &[[0., 0., 0.], [0.5, 0.5, 0.]]
+            } else {
+                &[[0., 0., 0.], [0.5, 0.5, 0.5]]
+            };
+            let nb = basis.len();
+            // largest k with nb k^d <= min(n, 300), at least 1 (exact lattices with a basis send
+            // every clipping decision to the exact predicate: cost per cell is high)
+            let mut k = 1usize;
+            while nb * (k + 1).pow(d as u32) <= n.min(300) {
+                k += 1;
+            }
+            let m = n.min(nb * k.pow(d as u32));
+            // placement of the cells: sites on the walls (corner site at t = 0), a quarter cell
+            // inside, or half a cell inside (centred sites then lie on the upper walls)
+            let off = [0., 0.25, 0.5][p[2] as usize % 3];
+            let mag = match p[1] % 4 {
+                0 | 1 => 0.,
+                2 => 10f64.powi(-(6 + (p[3] % 11) as i32)),
+                _ => 10f64.powi(-(1 + (p[3] % 5) as i32)),
+            };
+            for i in 0..m {
+                let s = lattice_site(i / nb, k);
+                let b = basis[i % nb];
+                let mut t = [0.; 3];
+                for a in 0..d {
+                    t[a] = clamp01((s[a] as f64 + b[a] + off) / k as f64 + (raw[i][a] - 0.5) * mag / k as f64);
+                    // (off = 0.5: the centred sites of the last cell land on t = 1)
+                    if t[a] > 1. {
+                        t[a] = 1.;
+                    }
                 }
                 for a in d..3 {
                     t[a] = raw[i][a];
